@@ -263,6 +263,24 @@ def collision_search(rep, rng, tier):
                                     {'section': 'result-collisions', 'decoder': n, 'start': b, 'pair': [list(a), list(c)]})
         if n not in bad:
             sec['distinct_nontrivial'] += 1
+    # END records that differ ONLY in a word other than the error / return words (the second descriptor of pipe, anything a
+    # decoder shows from words 2 and 3): [E1, E2, E1] back to back, every rendering against the stateless statement
+    for (n, b, call) in reps:
+        for k in (2, 3):
+            for (e, r) in ((0, 5), (0, 0x51f3), (13, 5)):
+                e1 = [e, r, 0x6a2d, 0x7b1c]
+                e2 = list(e1)
+                e2[k] = e1[k] + 1
+                for end in (e1, e2, e1):
+                    sec['cases'] += 1
+                    v = tail_violation(n, call, end, render(n, b, end, lookups))
+                    if v and n not in bad:
+                        bad.add(n)
+                        rep.add_failure('result:%s:follows-an-earlier-end-record' % n,
+                                        'END records of %s that differ only in word %d, rendered back to back (%s then %s then %s): %s'
+                                        % (n, k, e1, e2, e1, v),
+                                        {'section': 'result-collisions', 'decoder': n, 'start': b, 'ends': [e1, e2, e1],
+                                         'pair': [[e, r], [e, r]]})
     # the same END record through decoders of different shapes, back to back
     for i in range(len(reps) - 1):
         (n1, b1, c1), (n2, b2, c2) = reps[i], reps[i + 1]
@@ -316,9 +334,10 @@ def replay(path):
         t0 = render(n, b, [0, 0x51f3, 0x6a2d, 0x7b1c], lookups)
         call = t0[:len(t0) - len(D.split_call(t0)[2])]
         bad = 0
-        for e, r in rp['pair'] + rp['pair'][:1]:
-            t = render(n, b, [e, r, 0x6a2d, 0x7b1c], lookups)
-            v = tail_violation(n, call, [e, r, 0x6a2d, 0x7b1c], t)
+        for end in (rp.get('ends') or [[e, r, 0x6a2d, 0x7b1c] for e, r in rp['pair'] + rp['pair'][:1]]):
+            e, r = end[0], end[1]
+            t = render(n, b, end, lookups)
+            v = tail_violation(n, call, end, t)
             print('END (error=%d, return=%#x) ->' % (e, r), t, '' if not v else '<- ' + v)
             bad += bool(v)
         if bad:
